@@ -107,6 +107,7 @@ def run_spec(tape, spec, extra_threads=None, executes=1, style=0):
   sim = core.Sim(tape, env.TRACE_PREFIXES, knobs)
   sim.sigint_info = lambda: len(test_descriptor.Test.TEST_INSTANCES)
   sim.watch_calls = frozenset(['_execute_test_teardown', '_finalize', 'tear_down_plugs', 'finalize', 'abort', 'wait', 'close'])
+  sim.watch_returns = frozenset(['tear_down_plugs'])
   obs.sim = sim
   ctx = bodies.Ctx(sim, spec.get('tag', ''))
   bodies.CURRENT[ctx.tag] = ctx
